@@ -263,6 +263,14 @@ pub fn run(ctx: &RunCtx) -> i32 {
             }
         }
     }
+    // one attribute holding a giant list: UNKNOWN-ATTRIBUTES with up to 65,535 entries (fits up to 32,764), and
+    // PASSWORD-ALGORITHMS with thousands of entries, around and far beyond the limit
+    for n in [32_000usize, 32_763, 32_764, 32_765, 32_766, 32_767, 32_768, 32_769, 33_068, 40_000, 52_768, 65_535] {
+        cases.push((menu::lmsg(1, 3, tid, vec![L::UnknownAttributes((0..n as u32).map(|x| x as u16).collect())]), false, "giant-unknown-attributes-list"));
+    }
+    for n in [8_000usize, 16_382, 16_383, 16_384, 20_000] {
+        cases.push((menu::lmsg(1, 3, tid, vec![L::PasswordAlgorithms((0..n).map(|k| (1 + (k % 2) as u16, vec![]).clone()).collect())]), false, "giant-password-algorithms-list"));
+    }
     let n_large = cases.len();
     cases.par_iter().for_each(|(lm, k, what)| {
         let mut r = Report::new();
@@ -280,7 +288,7 @@ pub fn run(ctx: &RunCtx) -> i32 {
         rep,
         Finish {
             level: "exploration",
-            rule: format!("every buffer length 0..=needed+8 x 3 pre-fills for every single-attribute message of the {}-entry menu x 8 tails, for the empty body x 8 tails and for every ordered pair over the {}-entry (values <=120 bytes) menu x 8 tails; {} large messages walking every attribute-byte total across 65,440..=65,560 with the boundary crossed by the first, last, middle attribute or a member of the tail, plus 65,535..131,072-byte values; the boundary crossed by one to three value-less attributes (USE-CANDIDATE, DONT-FRAGMENT, empty SOFTWARE) after 65,500..=65,536 body bytes, and by one representative of every attribute kind ending 4 below / at / 4 above the 65,532-byte maximum (last, and followed by a PRIORITY). Non-trivial = (message, length, prefill) whose result matched 'Ok with reference bytes and untouched tail iff long enough' / large case that round-tripped or was refused as expected", full.len(), pair_menu.len(), n_large),
+            rule: format!("every buffer length 0..=needed+8 x 3 pre-fills for every single-attribute message of the {}-entry menu x 8 tails, for the empty body x 8 tails and for every ordered pair over the {}-entry (values <=120 bytes) menu x 8 tails; {} large messages walking every attribute-byte total across 65,440..=65,560 with the boundary crossed by the first, last, middle attribute or a member of the tail, plus 65,535..131,072-byte values; the boundary crossed by one to three value-less attributes (USE-CANDIDATE, DONT-FRAGMENT, empty SOFTWARE) after 65,500..=65,536 body bytes, and by one representative of every attribute kind ending 4 below / at / 4 above the 65,532-byte maximum (last, and followed by a PRIORITY); single attributes holding giant lists (UNKNOWN-ATTRIBUTES with 32,000..65,535 entries, PASSWORD-ALGORITHMS with 8,000..20,000 entries). Non-trivial = (message, length, prefill) whose result matched 'Ok with reference bytes and untouched tail iff long enough' / large case that round-tripped or was refused as expected", full.len(), pair_menu.len(), n_large),
             assumptions: vec!["needed size and reference bytes come from R-codec".into()],
             required_symbols: vec!["singles", "pairs", "large-cases", "large-fitting-roundtrip", "large-rejected"],
             min_outcomes: 2,
